@@ -263,3 +263,15 @@ theorem nonvacuous_cname_chain :
     hypsHold zChain { name := [lAlias, lExample], type := T_ANY } = true := by decide
 
 end HickoryVerif.C10
+
+namespace HickoryVerif.C10
+open HickoryVerif HickoryVerif.AuthZone HickoryVerif.AuthZone.SDev
+
+/-- `closestNsec_covers` is not vacuous: in `sNx` the non-existent `x.y.example.` gets the last
+NSEC of the chain, which covers it -/
+theorem nonvacuous_closestNsec :
+    getRR sNx qXY.name T_NSEC = none ∧
+    closestNsec sNx qXY.name = some (nsecRR [lNs, lExample] origin tANsec 2) ∧
+    covers (nsecRR [lNs, lExample] origin tANsec 2) qXY.name = true := by decide
+
+end HickoryVerif.C10
